@@ -130,6 +130,11 @@ int main()
             g->setModel(a->model());
             g->setProfile(GeneratorProfile::create(t.at(3) == "PY" ? GeneratorProfile::Profile::PYTHON : GeneratorProfile::Profile::C));
             std::cout << "generate code=" << H64(g->interfaceCode() + "\n=====\n" + g->implementationCode()) << std::endl;
+        } else if (c == "analysenull") {
+            // analyseModel(nullptr): the analyser must forget what it analysed before
+            auto a = analysers.at(slot(1));
+            a->analyseModel(nullptr);
+            std::cout << "analyse type=" << AnalyserModel::typeAsString(a->model()->type()) << " model=" << H64(analysed(a->model())) << " " << issueSummary(a) << " unchanged=1" << std::endl;
         } else if (c == "eqcode") {
             // eqcode <aslot> D|PY: Generator::equationCode of every equation of the analysed model, with the default profile
             // (no profile argument) or with an explicit Python profile
